@@ -13,6 +13,7 @@ import (
 
 type Cell struct {
 	id     int
+	frame  int
 	name   string
 	typ    types.Type
 	sort   string
@@ -279,9 +280,9 @@ func (s *State) note(format string, a ...any) {
 }
 
 // cellByName returns the most recently allocated cell with that source name.
-func (s *State) cellByName(name string) *Cell {
+func (s *State) cellByName(name string, frame int) *Cell {
 	for i := len(s.order) - 1; i >= 0; i-- {
-		if s.order[i].name == name {
+		if s.order[i].name == name && (frame == 0 || s.order[i].frame == frame) {
 			return s.order[i]
 		}
 	}
